@@ -299,6 +299,40 @@ def rule_linebreaks(run, prog):
     except Unsupported as e:
         raise Undecided(f"Lexer.pop / get_next_token is outside the evaluable subset: {e}")
 
+    # the bad-lexeme skip: no sub-parser takes the character, get_next_token reports it and moves on; wherever it lands, the
+    # column there is the column of that raw offset (a skipped trigraph is three columns wide)
+    bad_skip, n_skip = None, 0
+    try:
+        for prefix in (0, 2):
+            for body in ("$a", "@ a", "`a", "\\a", "??/a", "??/ a", "$$a", "??/??/a"):
+                n_skip += 1
+                sim = LexerSim(prog, " " * prefix + body)
+                if prefix:
+                    sim.call("pop", times=prefix)
+                seen = []
+                start = prefix
+
+                def stub2(me=None, sim=sim, seen=seen, start=start):
+                    if sim.pos == start:
+                        return None                    # nothing can start here
+                    seen.append(((sim.line, sim.line_pos), sim.pos))
+                    return TokenStub("T", (sim.line, sim.line_pos), None)
+                sim.me.__dict__["parsers"] = (stub2,)
+                out = sim.call("get_next_token")
+                if out.kind != "ok" or not seen:
+                    bad_skip = bad_skip or (body, None, None, out)
+                    continue
+                (got_lc, got_pos) = seen[0]
+                want_lc = _ref_advance(1, 1 + prefix, (" " * prefix + body)[prefix:got_pos], {}, {})
+                if got_lc != want_lc and bad_skip is None:
+                    bad_skip = (body, got_lc, (want_lc, got_pos), out)
+    except Unsupported as e:
+        raise Undecided(f"Lexer.get_next_token is outside the evaluable subset: {e}")
+    run.ob("R-9.4", f"{gnt.key}::bad-lexeme-skip", bad_skip is None,
+           (f"after the unmatchable start of {bad_skip[0]!r} the next sub-parser round sees the position {bad_skip[1]} but stands at "
+            f"(line, column) {bad_skip[2][0]} / offset {bad_skip[2][1]} of the raw text (result {bad_skip[3]!r}): every later token of the "
+            f"line is reported at a wrong column") if bad_skip else "", gnt.node, evaluations=n_skip)
+
     def show(rec):
         body, kw, got, want, out, pos, wpos = rec
         return (f"on {body!r} {kw or ''} the position reached is {got} at offset {pos} (result {out!r}); the raw text puts it at "
